@@ -10,7 +10,10 @@ import time
 VERIF = os.path.dirname(os.path.dirname(os.path.abspath(__file__)))
 REPO = os.environ.get("VERIF_REPO", "/repo")
 TARGET = os.path.join(VERIF, ".target")
+COV = bool(os.environ.get("VERIF_COV"))  # reach measurement: coverage-instrumented driver, diverted evidence
 ALT = "" if REPO == "/repo" else "alt-" + hashlib.sha256(REPO.encode()).hexdigest()[:10]
+if COV:
+    ALT = (ALT or "alt") + "-cov"
 # scratch; runs against a scratch copy of the repository (VERIF_REPO) get their own subtree so that
 # they can run in parallel and never touch the evidence of the real tree
 WORK = os.path.join(VERIF, ".work", ALT) if ALT else os.path.join(VERIF, ".work")
@@ -131,11 +134,14 @@ def build_driver(cfg="A", quiet=True):
     """cargo build --release --offline from the current working tree; returns the binary path"""
     d, tag = _driver_dir()
     shutil.copyfile(os.path.join(REPO, "Cargo.lock"), os.path.join(d, "Cargo.lock"))
-    tdir = os.path.join(TARGET, cfg + tag)
+    tdir = os.path.join(TARGET, cfg + tag + ("-cov" if COV else ""))
     env = dict(os.environ)
     env["CARGO_NET_OFFLINE"] = "true"
     env["CARGO_TARGET_DIR"] = tdir
     cmd = ["cargo", "build", "--release", "--offline", "--features", _FEATURES[cfg]]
+    if COV:
+        cmd.insert(1, "+nightly")
+        env["RUSTFLAGS"] = "-Cinstrument-coverage"
     t0 = time.time()
     p = subprocess.run(cmd, cwd=d, env=env, stdout=subprocess.PIPE, stderr=subprocess.STDOUT, text=True)
     if p.returncode != 0:
@@ -158,6 +164,10 @@ def run_script(binary, script_text, workdir, tag, timeout=300, wrapper=None, env
     if os.path.exists(lp):
         os.unlink(lp)
     cmd = (wrapper or []) + [binary, sp, lp]
+    if COV:
+        env = dict(env or os.environ)
+        os.makedirs(os.path.join(VERIF, ".work", "cov"), exist_ok=True)
+        env["LLVM_PROFILE_FILE"] = os.path.join(VERIF, ".work", "cov", "%p-%m.profraw")
     try:
         p = subprocess.run(cmd, stdout=subprocess.PIPE, stderr=subprocess.PIPE, timeout=timeout, env=env)
         rc = p.returncode
